@@ -1,5 +1,6 @@
 import Driver.Util
 import ImmuModel.Store.Recover
+import ImmuModel.Store.IndexRecover
 namespace Driver.C03
 open ImmuModel ImmuModel.Store.Crash
 
@@ -13,6 +14,20 @@ def choice? : List String → Option Choice
     | some kv, some kt, some kc, some tv, some tt, some tc => some { kv, kt, kc, tv, tt, tc }
     | _, _, _, _, _, _ => none
   | _ => none
+
+/-- one index commit-log entry as the harness describes it: "<synced><valid>", e.g. "01" -/
+def ent? (s : String) : Option ImmuModel.Store.IndexRecover.Ent :=
+  match s.toList with
+  | [a, b] => match b? (String.singleton a), b? (String.singleton b) with
+    | some a, some b => some { synced := a, valid := b }
+    | _, _ => none
+  | _ => none
+
+def ents? : List String → Option (List ImmuModel.Store.IndexRecover.Ent)
+  | [] => some []
+  | x :: xs => match ent? x, ents? xs with
+    | some e, some es => some (e :: es)
+    | _, _ => none
 
 def errTok : Err → String
   | .txLogTooSmall => "err:too-small"
@@ -60,6 +75,10 @@ def step (st : St) : List String → St × String
     | some c => match restart st c with
       | .ok s' => (s', s!"{s'.committed},{s'.pre}")
       | .error e => (st, errTok e)
+    | none => (st, "bad-op")
+  | "idxwalk" :: rest =>
+    match ents? rest with
+    | some es => (st, toString (ImmuModel.Store.IndexRecover.walk es))
     | none => (st, "bad-op")
   | ["state"] => (st, s!"{st.committed} {st.pre} tx={st.tx.durable.length}+{st.tx.volatile.length}+{st.tx.stale.length} cl={st.cl.durable.length}+{st.cl.volatile.length}+{st.cl.stale.length} acked={st.acked}")
   | _ => (st, "bad-op")
